@@ -188,7 +188,7 @@ pub fn run(args: Args) {
         "one case = (secret 0..200 bytes, SHA1/256/512, 6/8 digits, step >= 30 s, time >= one step) with ~60 structured candidate codes (codes of steps c-2..c+2, +-3 neighbours, +10^digits, untruncated, other digit count) and N random ones; non-trivial = current and previous code differ; distinct by (secret, algo, step, time, digits)",
     );
     run.assume("python3 hashlib/hmac implement HMAC-SHA1/256/512 correctly (the script checks itself against RFC 6238 appendix B before emitting cases)");
-    let ncases: u64 = args.tier.pick(6_000, 1_000_000);
+    let ncases: u64 = args.tier.pick(6_000, 600_000);
     let nrandom: usize = args.tier.pick(1_000, 1_500);
     let seed = args.seed;
     run.parallel(args.workers, |w, n| {
